@@ -54,7 +54,7 @@ func replayB1(c *core.Ctx, judgeMF, judgeSig, judgeHook, judgeM func(*b1.Result)
 		if err := json.Unmarshal(rf.Case, &h); err != nil {
 			core.Machinery("replay case: %v", err)
 		}
-		b1.Run(c, b1.Options{Name: "replay", PerFile: 1, Family: rf.Family, Compile: compile}, []*b1.Case{hookConcretise(0, &h)}, judgeHook)
+		b1.Run(c, hookOptions("replay", compile), []*b1.Case{hookConcretise(0, &h)}, judgeHook)
 	case "matching":
 		if judgeM == nil {
 			return false
